@@ -38,10 +38,11 @@ type sCase struct {
 	fault                             string // none eof reset stall writeerr
 	budget                            int    // server bytes before the fault
 	hugeKiB                           int    // size of the FetchHuge literal
+	refuse                            int    // the k-th synchronising literal is answered with a tagged NO (0 = never)
 }
 
 func (c sCase) String() string {
-	return fmt.Sprintf("greetingCaps=%v loginCaps=%v LITERAL-=%v ops=%v fault=%s after %d server bytes huge=%dKiB", c.greetingCaps, c.loginCaps, c.litMinus, c.ops, c.fault, c.budget, c.hugeKiB)
+	return fmt.Sprintf("greetingCaps=%v loginCaps=%v LITERAL-=%v ops=%v fault=%s after %d server bytes huge=%dKiB refuse=%d", c.greetingCaps, c.loginCaps, c.litMinus, c.ops, c.fault, c.budget, c.hugeKiB, c.refuse)
 }
 
 var sOps = []string{"Authenticate", "Login", "LoginLiteral", "Capability", "Caps", "Select", "Status", "List", "ListStatus", "Fetch", "FetchManual", "FetchHuge", "Search",
@@ -114,12 +115,31 @@ func (sv *sServer) loop() {
 	} else {
 		sv.send("* OK ready\r\n")
 	}
+	nsync := 0
+	s.OnLiteral = func(*script.LiteralEvent) script.Decision {
+		nsync++
+		if nsync == sv.c.refuse {
+			return script.Refuse
+		}
+		return script.Accept
+	}
 	for {
 		cmd, err := s.ReadCommand()
 		if err != nil {
 			return
 		}
 		tag := cmd.Tag
+		if cmd.Refused {
+			// a tagged NO instead of the continuation request: the command is
+			// over, the connection stays usable
+			if !sv.send(tag + " NO literal refused\r\n") {
+				return
+			}
+			sv.mu.Lock()
+			sv.completed[cmd.Name]++ // a completion (the call reports the NO)
+			sv.mu.Unlock()
+			continue
+		}
 		var data string
 		status := tag + " OK done\r\n"
 		switch cmd.Name {
@@ -238,7 +258,7 @@ func runScripted(t fataler, c sCase) (faulted bool) {
 			case "Login":
 				rep(op, cl.Login("u", "p").Wait(), "LOGIN")
 			case "LoginLiteral":
-				rep(op, cl.Login("us\"er", "pa\r\nss").Wait(), "LOGIN")
+				rep(op, cl.Login("us\r\ner", "pa\r\nss").Wait(), "LOGIN") // two literals
 			case "Capability":
 				_, err := cl.Capability().Wait()
 				rep(op, err)
@@ -414,7 +434,8 @@ func genScripted(t *rapid.T) sCase {
 			break
 		}
 	}
-	c.fault = rapid.SampledFrom([]string{"none", "eof", "eof", "reset", "reset", "stall", "writeerr"}).Draw(t, "fault")
+	c.refuse = rapid.SampledFrom([]int{0, 0, 0, 1, 2, 3}).Draw(t, "refuse")
+	c.fault = rapid.SampledFrom([]string{"none", "none", "eof", "eof", "reset", "reset", "stall", "writeerr"}).Draw(t, "fault")
 	// budgets: mostly inside the first kilobyte (where the dialogue happens), sometimes deep inside a literal
 	switch rapid.IntRange(0, 3).Draw(t, "budgetclass") {
 	case 0:
@@ -459,6 +480,8 @@ func TestReplayScripted(t *testing.T) {
 		{greetingCaps: true, loginCaps: true, litMinus: true, ops: []string{"Login", "FetchHuge", "ListStatus", "Logout"}, fault: "none", hugeKiB: 1600},
 		{greetingCaps: true, loginCaps: true, ops: []string{"Login", "Select", "FetchHuge"}, fault: "reset", budget: 1200 * 1024, hugeKiB: 1600},
 		{greetingCaps: true, loginCaps: true, ops: []string{"Login", "Select", "FetchHuge"}, fault: "stall", budget: 1100 * 1024, hugeKiB: 1600},
+		{greetingCaps: true, loginCaps: true, ops: []string{"LoginLiteral", "AppendSync", "Search", "Noop"}, fault: "none", refuse: 1},
+		{greetingCaps: true, loginCaps: true, ops: []string{"Login", "AppendSync", "LoginLiteral", "AppendSync", "Noop"}, fault: "none", refuse: 2},
 	} {
 		runScripted(t, c)
 		ev.Eval()
